@@ -1,4 +1,5 @@
 mod c04;
+mod c06;
 mod c08;
 mod c12;
 mod c13;
@@ -50,6 +51,13 @@ fn main() {
                     out.case(&i, &o, nt, r);
                 }
             }
+            "C06" => {
+                let ctx = c06::Ctx::new();
+                for r in &reqs {
+                    let (i, o, nt) = ctx.exec(r);
+                    out.case(&i, &o, nt, r);
+                }
+            }
             "C08" => {
                 let ctx = c08::Ctx::new();
                 for r in &reqs {
@@ -80,6 +88,10 @@ fn main() {
         "C12" => {
             c12::generate(&mut out, tier, seed);
             out.finish(c12::RULE, false);
+        }
+        "C06" => {
+            c06::generate(&mut out, tier, seed);
+            out.finish(c06::RULE, true);
         }
         "C08" => {
             c08::generate(&mut out, tier, seed);
